@@ -34,6 +34,7 @@ import (
 	"github.com/libp2p/go-libp2p/core/peerstore"
 	"github.com/libp2p/go-libp2p/core/transport"
 	"github.com/libp2p/go-libp2p/internal/verifh"
+	basichost "github.com/libp2p/go-libp2p/p2p/host/basic"
 	"github.com/libp2p/go-libp2p/p2p/host/eventbus"
 	"github.com/libp2p/go-libp2p/p2p/host/peerstore/pstoremem"
 	ma "github.com/multiformats/go-multiaddr"
@@ -85,7 +86,11 @@ func (c *c12Conn) IsClosed() bool                             { return c.closed.
 // OpenStream parks until the harness says how it ends (it ignores ctx: a
 // transport that is slow to notice cancellation).
 func (c *c12Conn) OpenStream(ctx context.Context) (network.MuxedStream, error) {
-	tid, _ := ctx.Value(c12TidKey{}).(int)
+	tid, ok := ctx.Value(c12TidKey{}).(int)
+	if !ok {
+		// not one of the scripted calls (the host's identify service): no stream
+		return nil, errors.New("c12: no streams for services")
+	}
 	pk := &c12OpenPark{conn: c.id, cmd: make(chan c12OpenCmd)}
 	c.h.mu.Lock()
 	c.h.opens[tid] = pk
@@ -187,6 +192,7 @@ func (t *c12Tpt) Proxy() bool { return t.proxy }
 type c12Call struct {
 	tid    int
 	dial   bool
+	connect bool
 	opts   int64
 	cancel context.CancelFunc
 	gid    string
@@ -241,6 +247,7 @@ const c12RelayID = "12D3KooWDpJ7As7BWAwRMfu1VU2WCqNjvq387JEYKDBj4kx6nXTN"
 
 type c12H struct {
 	s      *Swarm
+	host   *basichost.BasicHost
 	p      peer.ID
 	direct *c12Tpt
 	relay  *c12Tpt
@@ -405,6 +412,15 @@ func newC12H(dialAttempts int64) *c12H {
 	s.limiter = newDialLimiterWithParams(s.dialAddr, 100000, 100000)
 	_, rp, _ := ic.GenerateEd25519Key(rand.Reader)
 	h.p, _ = peer.IDFromPublicKey(rp)
+	// a real BasicHost over this swarm; only its identify service is started (Connect waits
+	// for it; it gets no stream from the scripted connections and gives up at once), not the
+	// address manager nor the peerstore manager (which would forget the peer's addresses)
+	hst, err := basichost.NewHost(s, &basichost.HostOpts{})
+	if err != nil {
+		panic(err)
+	}
+	h.host = hst
+	hst.IDService().Start()
 	synctest.Wait()
 	return h
 }
@@ -444,7 +460,7 @@ func (h *c12H) close() {
 		}
 		synctest.Wait()
 	}
-	h.s.Close()
+	h.host.Close() // closes the swarm too
 	h.s.peers.Close()
 	synctest.Wait()
 }
@@ -519,6 +535,8 @@ func (h *c12H) observe() {
 		c.mu.Unlock()
 		var st [2]int64
 		switch {
+		case done && errc == 0 && c.connect:
+			st = [2]int64{6, 0}
 		case done && errc == 0:
 			st = [2]int64{4, int64(okc)}
 		case done:
@@ -861,7 +879,7 @@ func (g *c12Gen) randomOp() {
 	// races in dialSync's select between sending the request and ctx.Done())
 	var live []int
 	for i, st := range h.cur {
-		if st[0] != 4 && st[0] != 5 && (st[0] != 2 || g.nodial[i]) {
+		if st[0] != 4 && st[0] != 5 && st[0] != 6 && (st[0] != 2 || g.nodial[i]) {
 			live = append(live, i)
 		}
 	}
@@ -891,6 +909,11 @@ func (g *c12Gen) randomOp() {
 		case k < 50:
 			if len(h.calls) >= 6 {
 				continue
+			}
+			if r.Chance(1, 5) {
+				g.nodial[len(h.calls)] = false
+				h.opConnect(r.Bool(), r.Bool(), r.Chance(1, 4))
+				return
 			}
 			g.startCall(r.Chance(1, 3), r.Intn(8))
 			return
@@ -984,6 +1007,54 @@ func (g *c12Gen) opening(kind int) {
 		}
 		if kind == 6 {
 			h.opAdd(false, false, true) // a direct connection that is gone before anybody can use it
+		}
+	case 9:
+		// BasicHost.Connect with every option subset against none / limited only / direct / both
+		switch r.Intn(4) {
+		case 1:
+			h.opAdd(true, true, false)
+		case 2:
+			h.opAdd(false, false, false)
+		case 3:
+			h.opAdd(true, true, false)
+			h.opAdd(false, false, false)
+		}
+		if r.Chance(2, 3) {
+			codes := []int64{4 * int64(r.Intn(3))}
+			if r.Bool() {
+				codes = append(codes, 4*int64(r.Intn(3))+1)
+			}
+			g.addrs = codes
+			h.opAddrs(codes)
+		}
+		k := 1 + r.Intn(3)
+		for j := 0; j < k; j++ {
+			opts := r.Intn(8)
+			h.opConnect(opts&1 != 0, opts&2 != 0, opts&4 != 0)
+		}
+	case 10:
+		// nothing but a relay address: a NewStream without allow-limited dials the limited
+		// connection itself, must then wait, and a direct connection shows up later
+		codes := []int64{4*int64(r.Intn(3)) + 1}
+		if r.Chance(1, 3) {
+			codes = []int64{4*1 + 3} // a /dnsaddr resolving to a relay address
+		}
+		g.addrs = codes
+		h.opAddrs(codes)
+		k := 1 + r.Intn(2)
+		for j := 0; j < k; j++ {
+			g.startCall(false, 0)
+		}
+		rc := codes[0]
+		if rc%4 == 3 {
+			rc = c12Resolve(rc)[0]
+		}
+		h.opDialRes(rc, true, r.Chance(5, 6))
+		if r.Chance(2, 3) {
+			h.opAdd(false, false, false)
+			for tid := 0; tid < k; tid++ {
+				h.opOpenRes(tid, true)
+			}
 		}
 	case 7:
 		// an ordinary dial creates the address dials; a relayed connection appears; callers
@@ -1115,7 +1186,7 @@ func TestVerifC12(t *testing.T) {
 	r := verifh.NewRand(verifh.Seed())
 	for i := 0; i < n; i++ {
 		cr := r.Fork()
-		kind := cr.Intn(9)
+		kind := cr.Intn(11)
 		steps := 4 + cr.Intn(22)
 		first := i < n/6
 		if first {
@@ -1145,6 +1216,8 @@ func c12ParseOps(in []int64) (ops [][]int64) {
 			n = 2
 		case 4:
 			n = 5
+		case 12:
+			n = 4
 		case 6, 11:
 			n = 3
 		case 7:
@@ -1203,6 +1276,8 @@ func c12Replay(h *c12H, ops [][]int64) {
 			h.opExpire()
 		case 11:
 			h.opStartOn(int(o[1]), o[2] != 0)
+		case 12:
+			h.opConnect(o[1] != 0, o[2] != 0, o[3] != 0)
 		}
 	}
 }
@@ -1268,6 +1343,42 @@ func (h *c12H) opStartOn(id int, allow bool) {
 			return
 		}
 		c.okConn = str.Conn().(*Conn).conn.(*c12Conn).id
+	}()
+	h.finish()
+}
+
+// opConnect: BasicHost.Connect(ctx, {ID: p}) with the given context options
+func (h *c12H) opConnect(allow, force, nodial bool) {
+	h.lastOp = 12
+	h.line = append(h.line, 12, c12b(allow), c12b(force), c12b(nodial))
+	tid := len(h.calls)
+	ctx := context.WithValue(context.Background(), c12TidKey{}, tid)
+	if allow {
+		ctx = network.WithAllowLimitedConn(ctx, "c12")
+	}
+	if force {
+		ctx = network.WithForceDirectDial(ctx, "c12")
+	}
+	if nodial {
+		ctx = network.WithNoDial(ctx, "c12")
+	}
+	ctx, cancel := context.WithCancel(ctx)
+	c := &c12Call{tid: tid, dial: true, connect: true, cancel: cancel,
+		opts: 1 + 2*c12b(allow) + 4*c12b(force) + 8*c12b(nodial) + 16}
+	h.mu.Lock()
+	h.calls = append(h.calls, c)
+	h.mu.Unlock()
+	c.mu.Lock()
+	go func() {
+		c.gid = c12GoroutineID()
+		c.mu.Unlock()
+		err := h.host.Connect(ctx, peer.AddrInfo{ID: h.p})
+		c.mu.Lock()
+		defer c.mu.Unlock()
+		c.done = true
+		if err != nil {
+			c.errc = c12ErrCode(err)
+		}
 	}()
 	h.finish()
 }
